@@ -612,8 +612,34 @@ package protocol
 //@ func newLowEntropyHalfMask(mode appctlpb.LowEntropyMode) (mask uint32, err error)
 //@   trusted rejection sampling of a random mask of the mode's weight (rng loop); result unconstrained
 //@
+//@ // Encoder (docs/protocol.md, "Low Entropy Payload Encoding"): the output has the documented
+//@ // length and is in the canonical form the decoder demands - every non-data position of
+//@ // every chunk carries the padding bit (so what this encoder emits, the decoder above does
+//@ // not refuse for its padding). The data-bit equation (PEXT of chunk i under mask i gives
+//@ // back source chunk i) is not claimed yet.
+//@ func encodeLowEntropyPayloadWithPaddingBit(src []byte, mode appctlpb.LowEntropyMode, halfMask uint32, rotation appctlpb.LowEntropyMaskRotation, paddingBit uint8) (r []byte, err error)
+//@   property C17
+//@   mode int
+//@   requires len(src) <= 1073741824
+//@   ensures err == nil ==> 1 <= mode && mode <= 4 && paddingBit <= 1 && len(src) > 0 && len(r) == leEncLen(len(src), uint8(mode))
+//@   ensures err == nil ==> forall(i, 0, len(r) / 8, lePad(r, halfMask, int32(rotation), i, len(src), int(mode) + 3) == ite(paddingBit == 1, ^leDataMask(halfMask, int32(rotation), i, len(src), int(mode) + 3), 0))
+//@   use_at "if paddingBit == 1 {": lowBitsMaskOff(source, sourceLen)
+//@   use_at "if paddingBit == 1 {": pdepMono(source, lowBitsS(8 * sourceLen), chunkMask, 1)
+//@   use_at "binary.BigEndian.PutUint64(encoded[chunkIndex*lowEntropyChunkLen:], chunk)": orPadFills(pdepS(source, chunkMask, 1), dataMask)
+//@   use_at "binary.BigEndian.PutUint64(encoded[chunkIndex*lowEntropyChunkLen:], chunk)": be64Recompose(chunk)
+//@   loop 1:
+//@     modifies encoded[..]
+//@     invariant 0 <= chunkIndex && srcOffset == chunkIndex * params.sourceBytesPerChunk && chunkIndex <= len(encoded) / 8
+//@     invariant params.sourceBytesPerChunk == int(mode) + 3 && 1 <= mode && mode <= 4 && initialMask == repeat32(halfMask) && len(encoded) == leEncLen(len(src), uint8(mode)) && len(src) > 0 && paddingBit <= 1
+//@     invariant 0 <= rotation && rotation <= 240 && leRotOK(uint8(rotation))
+//@     invariant srcOffset >= len(src) ==> chunkIndex == len(encoded) / 8
+//@     invariant forall(i, 0, chunkIndex, lePad(encoded, halfMask, int32(rotation), i, len(src), int(mode) + 3) == ite(paddingBit == 1, ^leDataMask(halfMask, int32(rotation), i, len(src), int(mode) + 3), 0))
+//@
 //@ func encodeLowEntropyPayload(payload []byte, mode appctlpb.LowEntropyMode, initialMask uint32, rotation appctlpb.LowEntropyMaskRotation) (r []byte, err error)
-//@   trusted encoder loop not yet under contract (decoder is: decodeLowEntropyPayload); result unconstrained
+//@   property C17
+//@   mode int
+//@   requires len(payload) <= 1073741824
+//@   ensures err == nil ==> len(r) == leEncLen(len(payload), uint8(mode))
 //@
 //@ // Padding generators: the length never exceeds the requested maximum (the content is
 //@ // random; floating point and crypto/rand are outside the subset).
